@@ -105,3 +105,24 @@ def func_by_qualname(model: Model, module: str, qualname: str) -> FuncInfo:
     if f is None:
         raise AnalysisError(f'anchor function {module}:{qualname} vanished')
     return f
+
+
+def operand_helper_calls(model, f, operands: set[str]):
+    """
+    One level of helper extraction: calls in `f` to a package function (module-level, resolved
+    through the imports) that receive an evaluated operand as a positional argument. Yields
+    (call, helper FuncInfo, {helper parameter -> operand name}).
+    """
+    for n in walk_local(f.node):
+        if not isinstance(n, ast.Call) or not isinstance(n.func, (ast.Name, ast.Attribute)):
+            continue
+        kind, h = model.resolve_expr(f.module, n.func)
+        if kind != 'func' or h is f or h.cls is not None:
+            continue
+        params = h.params()
+        binding = {}
+        for i, a in enumerate(n.args):
+            if isinstance(a, ast.Name) and a.id in operands and i < len(params):
+                binding[params[i]] = a.id
+        if binding:
+            yield n, h, binding
